@@ -27,9 +27,23 @@ func vpH_C16_blacklist_call() {
 	x := w.peers[0]
 	q0 := w.q[0]
 	ps.mySubs[vpT0] = map[*Subscription]struct{}{} // we are subscribed: payload would be delivered
+	// a backlog of 0..2 RPCs waits in x's outbound queue (slow link) at the moment of blacklisting
+	backlog := vpInt("backlog_in_the_peers_queue", 0, 2)
+	if w.up[0] {
+		for k := 0; k < 2; k++ {
+			if k < backlog {
+				q0.Push(&RPC{}, k == 0)
+			}
+		}
+	}
 	vpOffer(ps.blacklistPeer, x)
 	w.n.loop()
 	vpAssert(ps.blacklist.Contains(x), "BlacklistPeer puts the peer into the blacklist")
+	if w.up[0] {
+		// the writer of x's stream asks the queue for the next RPC: it must be told the queue is closed, backlog or not
+		_, perr := q0.Pop(context.Background())
+		vpAssert(perr == ErrQueueClosed, "nothing further is sent to a blacklisted peer: its closed queue hands out nothing, not even RPCs queued before the blacklisting")
+	}
 	_, a := ps.peers[x]
 	_, b := ps.topics[vpT0][x]
 	_, c := gs.mesh[vpT0][x]
